@@ -30,6 +30,7 @@ type sess struct {
 	caseN int
 	st    map[string]interface{}
 	t0    int64 // wall clock (Unix seconds) at the start of the current case
+	deep  bool  // the current operation carries deep=1 (see srcBaseFor)
 }
 
 func (s *sess) obs(format string, a ...interface{}) {
@@ -93,6 +94,12 @@ func main() {
 			tk[i] = s.resolveTime(t)
 		}
 		line = strings.Join(tk, " ")
+		s.deep = false
+		for _, t := range tk {
+			if t == "deep=1" {
+				s.deep = true
+			}
+		}
 		h := handlers[tk[0]]
 		if h == nil {
 			fmt.Fprintf(os.Stderr, "wtdriver: unknown op %q\n", tk[0])
